@@ -371,7 +371,8 @@ pub fn eval_function(
         }
         Function::Clamp => {
             let (x, min, max) = args.number_triple()?;
-            if min > max {
+            // NaN bounds are also rejected (f32::clamp would panic)
+            if min > max || min.is_nan() || max.is_nan() {
                 return Err(SvgdxError::InvalidData(
                     "clamp(x, min, max) - `min` must be <= `max`".to_string(),
                 ));
